@@ -14,3 +14,5 @@ open Gossamer.C24
 #print axioms C24_verifyBlock_iff_partial
 #print axioms C24_manager_accepts_authorised
 #print axioms C24_disabled_no_duplicates
+#print axioms C24_primary_at_or_over_threshold_rejected
+#print axioms C24_no_primary_claim_at_threshold
